@@ -52,6 +52,24 @@ Definition krylov_code (bicg : bool) (A M : list (list float)) (useM useE posdef
                                 else cg Fops Afs eps max_niter every (PrimFloat.mul rtol f) (PrimFloat.mul atol f) b2 in
   let lo := run (if bicg then 0x1p-2 else 0x1p-1)%float in let hi := run (if bicg then 0x1p+2 else 0x1p+1)%float in
   let stable := Nat.eqb (co_iters lo) (co_iters hi) && Bool.eqb (co_warned lo) (co_warned hi) in
+  (* sensitivity rule: the decisions must also survive a relative perturbation of 2^-40 of the right-hand side
+     (alternating sign per entry); on ill-conditioned systems the iteration amplifies rounding differences by
+     more than the factor used above *)
+  let pert := fun (c : list float) => map (fun p : nat * float => PrimFloat.mul (snd p)
+                 (if Nat.even (fst p) then 0x1.0000000001p+0 else 0x1.fffffffffep-1)%float) (combine (seq 0 (List.length c)) c) in
+  let b3 := map pert b2 in
+  let outp := if bicg then bicgstab Fops Afs eps max_niter every rtol atol b3
+              else cg Fops Afs eps max_niter every rtol atol b3 in
+  let stable := stable && Nat.eqb (co_iters outp) (co_iters out) && Bool.eqb (co_warned outp) (co_warned out)
+                && close_cols 0x1p-24 0x1p-34 (co_x outp) (co_x out)
+                && forallb (fun t : (float * float) * list float =>
+                              let stop := (let r := PrimFloat.mul rtol (vnorm Fops (snd t)) in if PrimFloat.ltb r atol then atol else r) in
+                              let r1 := fst (fst t) in let r2 := snd (fst t) in
+                              PrimFloat.leb (PrimFloat.abs (PrimFloat.sub r1 r2)) (PrimFloat.mul 0x1p-6 r2)
+                              || (PrimFloat.leb r1 (PrimFloat.mul 0x1p-20 stop) && PrimFloat.leb r2 (PrimFloat.mul 0x1p-20 stop)))
+                           (combine (combine (co_resid outp) (co_resid out)) b2) in
+  (* ... and the returned block and the final residual norms must move by less than 2^-24 resp. 2^-8: an iteration
+     that amplifies a 2^-40 perturbation beyond that (residual norms: by 2^-6 relative, unless both are 2^20 times below the threshold, i.e. at the rounding floor) cannot be compared *)
   if negb stable then 2%nat else
   let k := co_iters out in
   (* applications of the (composed) column operator: 1 initial + per iteration (1 or 2) + recomputations *)
